@@ -8,6 +8,7 @@ import (
 	"math/big"
 	"sort"
 	"strings"
+	"sync"
 )
 
 type Obl struct {
@@ -40,6 +41,9 @@ type VC struct {
 	stamp  int
 	errs   []string
 	trig   map[string]bool
+	noCong map[string]bool
+	once   sync.Once
+	congAx []string
 }
 
 func NewVC(w *World, name string) *VC {
